@@ -9,7 +9,7 @@ from ..core import AnalysisError
 from ..src import arg_names, unparse
 
 LEVEL = "other"
-TECHNIQUE = "literal-table lint: coefficient/dof tables re-derived in exact rationals from the connectivity pattern extracted from the code"
+TECHNIQUE = "literal-table lint: coefficient/dof tables re-derived in exact rationals from the connectivity pattern extracted from the code; provenance rules for the assembly of the DUAL1 matrix and of the barycentric vertices (abstract execution of the memo states), index-space typing of coarse vs barycentric element tables"
 LEVEL_TEXT = (
     "The sub-triangle numbering of the barycentric refinement is extracted from the code as a symbolic 6x3 table; "
     "every dependent literal table (P1 barycentric coefficients, DUAL0 element pairs, DUAL1 dof lists and values, "
